@@ -208,6 +208,42 @@ func (s *BaseVisitor) EnterOC_ListOperatorExpression(c *parser.OC_ListOperatorEx
 	s.newUnsupportedRuleError(c)
 }
 
+func (s *BaseVisitor) EnterOC_CypherOption(c *parser.OC_CypherOptionContext) {
+	s.newUnsupportedRuleError(c)
+}
+
+func (s *BaseVisitor) EnterOC_Hint(c *parser.OC_HintContext) {
+	s.newUnsupportedRuleError(c)
+}
+
+func (s *BaseVisitor) EnterOC_CreateUnique(c *parser.OC_CreateUniqueContext) {
+	s.newUnsupportedRuleError(c)
+}
+
+func (s *BaseVisitor) EnterOC_LoadCSV(c *parser.OC_LoadCSVContext) {
+	s.newUnsupportedRuleError(c)
+}
+
+func (s *BaseVisitor) EnterOC_InQueryCall(c *parser.OC_InQueryCallContext) {
+	s.newUnsupportedRuleError(c)
+}
+
+func (s *BaseVisitor) EnterOC_StandaloneCall(c *parser.OC_StandaloneCallContext) {
+	s.newUnsupportedRuleError(c)
+}
+
+func (s *BaseVisitor) EnterOC_ListComprehension(c *parser.OC_ListComprehensionContext) {
+	s.newUnsupportedRuleError(c)
+}
+
+func (s *BaseVisitor) EnterOC_PatternComprehension(c *parser.OC_PatternComprehensionContext) {
+	s.newUnsupportedRuleError(c)
+}
+
+func (s *BaseVisitor) EnterOC_ShortestPathPattern(c *parser.OC_ShortestPathPatternContext) {
+	s.newUnsupportedRuleError(c)
+}
+
 /**************** EMPTY STUBS ON BASEVISITOR  */
 func (s *BaseVisitor) VisitTerminal(node antlr.TerminalNode) {}
 
@@ -222,8 +258,6 @@ func (s *BaseVisitor) EnterOC_Cypher(c *parser.OC_CypherContext) {}
 func (s *BaseVisitor) EnterOC_QueryOptions(c *parser.OC_QueryOptionsContext) {}
 
 func (s *BaseVisitor) EnterOC_AnyCypherOption(c *parser.OC_AnyCypherOptionContext) {}
-
-func (s *BaseVisitor) EnterOC_CypherOption(c *parser.OC_CypherOptionContext) {}
 
 func (s *BaseVisitor) EnterOC_VersionNumber(c *parser.OC_VersionNumberContext) {}
 
@@ -280,8 +314,6 @@ func (s *BaseVisitor) EnterOC_RelationshipPropertyExistenceConstraint(c *parser.
 func (s *BaseVisitor) EnterOC_RelationshipPatternSyntax(c *parser.OC_RelationshipPatternSyntaxContext) {
 }
 
-func (s *BaseVisitor) EnterOC_LoadCSV(c *parser.OC_LoadCSVContext) {}
-
 func (s *BaseVisitor) EnterOC_Match(c *parser.OC_MatchContext) {}
 
 func (s *BaseVisitor) EnterOC_Unwind(c *parser.OC_UnwindContext) {}
@@ -292,8 +324,6 @@ func (s *BaseVisitor) EnterOC_MergeAction(c *parser.OC_MergeActionContext) {}
 
 func (s *BaseVisitor) EnterOC_Create(c *parser.OC_CreateContext) {}
 
-func (s *BaseVisitor) EnterOC_CreateUnique(c *parser.OC_CreateUniqueContext) {}
-
 func (s *BaseVisitor) EnterOC_Set(c *parser.OC_SetContext) {}
 
 func (s *BaseVisitor) EnterOC_SetItem(c *parser.OC_SetItemContext) {}
@@ -303,10 +333,6 @@ func (s *BaseVisitor) EnterOC_Delete(c *parser.OC_DeleteContext) {}
 func (s *BaseVisitor) EnterOC_Remove(c *parser.OC_RemoveContext) {}
 
 func (s *BaseVisitor) EnterOC_RemoveItem(c *parser.OC_RemoveItemContext) {}
-
-func (s *BaseVisitor) EnterOC_InQueryCall(c *parser.OC_InQueryCallContext) {}
-
-func (s *BaseVisitor) EnterOC_StandaloneCall(c *parser.OC_StandaloneCallContext) {}
 
 func (s *BaseVisitor) EnterOC_YieldItems(c *parser.OC_YieldItemsContext) {}
 
@@ -329,8 +355,6 @@ func (s *BaseVisitor) EnterOC_Skip(c *parser.OC_SkipContext) {}
 func (s *BaseVisitor) EnterOC_Limit(c *parser.OC_LimitContext) {}
 
 func (s *BaseVisitor) EnterOC_SortItem(c *parser.OC_SortItemContext) {}
-
-func (s *BaseVisitor) EnterOC_Hint(c *parser.OC_HintContext) {}
 
 func (s *BaseVisitor) EnterOC_StartPoint(c *parser.OC_StartPointContext) {}
 
@@ -355,8 +379,6 @@ func (s *BaseVisitor) EnterOC_Pattern(c *parser.OC_PatternContext) {}
 func (s *BaseVisitor) EnterOC_PatternPart(c *parser.OC_PatternPartContext) {}
 
 func (s *BaseVisitor) EnterOC_AnonymousPatternPart(c *parser.OC_AnonymousPatternPartContext) {}
-
-func (s *BaseVisitor) EnterOC_ShortestPathPattern(c *parser.OC_ShortestPathPatternContext) {}
 
 func (s *BaseVisitor) EnterOC_PatternElement(c *parser.OC_PatternElementContext) {}
 
@@ -433,10 +455,6 @@ func (s *BaseVisitor) EnterOC_PropertyLookup(c *parser.OC_PropertyLookupContext)
 func (s *BaseVisitor) EnterOC_Atom(c *parser.OC_AtomContext) {}
 
 func (s *BaseVisitor) EnterOC_CaseAlternative(c *parser.OC_CaseAlternativeContext) {}
-
-func (s *BaseVisitor) EnterOC_ListComprehension(c *parser.OC_ListComprehensionContext) {}
-
-func (s *BaseVisitor) EnterOC_PatternComprehension(c *parser.OC_PatternComprehensionContext) {}
 
 func (s *BaseVisitor) EnterOC_Quantifier(c *parser.OC_QuantifierContext) {}
 
